@@ -1001,7 +1001,7 @@ def load(f, **options):  # type: (typing.IO, **typing.Any) -> canmatrix.CanMatri
     for frame in db.frames:
         try:
             frame.cycle_time = int(float(frame.attributes.get("GenMsgCycleTime", 0)))
-        except ValueError:
+        except (ValueError, OverflowError):
             # a cycle time that is no number is skipped like any other malformed line
             logger.error("frame %s: invalid GenMsgCycleTime %s ignored", frame.name, frame.attributes.get("GenMsgCycleTime"))
             frame.del_attribute("GenMsgCycleTime")
@@ -1024,6 +1024,8 @@ def load(f, **options):  # type: (typing.IO, **typing.Any) -> canmatrix.CanMatri
                 default_value = signal.phys2raw(None)
             try:
                 gen_sig_start_value = float_factory(signal.attributes.get("GenSigStartValue", default_value))
+                if not math.isfinite(gen_sig_start_value):
+                    raise ValueError("start value is not finite")
             except (ValueError, ArithmeticError):
                 logger.error("signal %s: invalid GenSigStartValue %s ignored", signal.name, signal.attributes.get("GenSigStartValue"))
                 signal.del_attribute("GenSigStartValue")
